@@ -61,7 +61,7 @@ Expect(o) ==
          LET k == cursor[o.obj] IN
          IF k < 0 \/ (k > NEvents(o.obj) /\ Terminal[o.obj] = "error") THEN [kind |-> "unspec", k |-> 0]
          ELSE [kind |-> "drain", k |-> k, evs |-> SubSeq(Events(DocToks[o.obj]), k + 1, NEvents(o.obj)), term |-> Terminal[o.obj]]
-    [] o.op = "dvalidate" -> IF cursor[o.arg] = 0 THEN [kind |-> "fresh", k |-> 0] ELSE [kind |-> "unspec", k |-> 0]   \* a partly read document: not specified
+    [] o.op = "dvalidate" -> [kind |-> "fresh", k |-> 0]        \* the verdict is about the whole document, wherever its cursor stands
     [] OTHER -> [kind |-> "fresh", k |-> 0]
 \* does the I layer (with the switch on) predict that this call differs from the same call on fresh objects?
 FirstCompile(o) == o.op \in CompileOps /\ ~Compiled(o.obj)
